@@ -192,18 +192,24 @@ def minimise(mod, case, sig, deadline):
         best["schedule"] = [ev for ev in best["schedule"] if ev[0] != "op" or ev[1] in keep]
         best = _prune(best)
     # 4. single ops (dependency closure through _prune)
-    ops = [(t["id"], rec["id"]) for t in best["tasks"] for rec in t["program"]]
+    coupled = getattr(mod, "COUPLED_TASKS", False)   # all tasks run the same program (differential executions)
+    if coupled:
+        ops = sorted({rec["id"] for t in best["tasks"] for rec in t["program"]})
+        inks = lambda t, r, ks: r["id"] in ks
+    else:
+        ops = [(t["id"], rec["id"]) for t in best["tasks"] for rec in t["program"]]
+        inks = lambda t, r, ks: (t["id"], r["id"]) in ks
 
     def t_o(keep):
         c = copy.deepcopy(best)
         ks = set(keep)
         for t in c["tasks"]:
-            t["program"] = [r for r in t["program"] if (t["id"], r["id"]) in ks]
+            t["program"] = [r for r in t["program"] if inks(t, r, ks)]
         return still(_prune(c))
     keep = _ddmin(ops, t_o, max_tests=600)
     ks = set(keep)
     for t in best["tasks"]:
-        t["program"] = [r for r in t["program"] if (t["id"], r["id"]) in ks]
+        t["program"] = [r for r in t["program"] if inks(t, r, ks)]
     best = _prune(best)
     # 5. property-specific shrinking (sizes)
     if hasattr(mod, "shrink_sizes"):
